@@ -10,7 +10,8 @@
    PWaitEnabled       wait_for_enabled -> fail_next_request -> rx.recv()
    PConnecting        TcpChannelTask::connect: select { host.connect(), fail_requests() }
    PIdle              ClientLoop::poll: select { reader.next_frame(), rx.recv() }
-   PWriting r tx u    execute_request: io.write(bytes).await  (a write that takes time, done at u)
+   PWriting r tx u    execute_request: timeout(r.timeout, io.write(bytes)).await  (a write that takes time: a transport
+                      that is slow, done at u, and / or takes nothing for a while - `wpark`; bounded by `wdl`)
    PInFlight r tx d   execute_request: select { sleep_until(d), reader.next_frame() }
    PWaiting u         fail_requests_for: select { sleep_until(u), fail_requests() }
    PDone              the task's future has completed or was dropped
@@ -83,7 +84,9 @@ Record state := {
   now : N;
   partial : option (N * reply);  (* reader holds the first part of a frame *)
   wfail : bool;                  (* the next write fails *)
-  wdelay : N                     (* the next write takes this long *)
+  wdelay : N;                    (* the next write takes this long *)
+  wpark : nat;                   (* the transport's transmit path is full: it takes nothing until released (as often as it was parked) *)
+  wdl : N                        (* while writing: when the write began + the request's timeout *)
 }.
 
 Inductive output :=
@@ -110,42 +113,54 @@ Inductive event :=
 | EvWriteDelay (dt : N)             (* environment: the next write takes dt *)
 | EvTimer                           (* the sleep_until branch (or the pending write) of the current phase yields, if due *)
 | EvTick (dt : N)
-| EvAbort.                          (* JoinHandle::abort *)
+| EvAbort                           (* JoinHandle::abort *)
+| EvWritePark                       (* environment: the transmit path is full - the transport takes nothing until released *)
+| EvWritePartial (k : N)            (* environment: the transport takes a proper part of the frame offered (invisible to the task) *)
+| EvWriteRelease.                   (* environment: the transmit path has room again (one park is over) *)
 
 (* ---------- field updates ---------- *)
 Definition set_ph (s : state) (p : phase) : state :=
   {| ph := p; queue := queue s; blocked := blocked s; handles := handles s; enabled := enabled s; txid := txid s;
-     tcount := tcount s; retry := retry s; decode := decode s; now := now s; partial := partial s; wfail := wfail s; wdelay := wdelay s |}.
+     tcount := tcount s; retry := retry s; decode := decode s; now := now s; partial := partial s; wfail := wfail s; wdelay := wdelay s; wpark := wpark s; wdl := wdl s |}.
 Definition set_chan (s : state) (q b : list command) : state :=
   {| ph := ph s; queue := q; blocked := b; handles := handles s; enabled := enabled s; txid := txid s;
-     tcount := tcount s; retry := retry s; decode := decode s; now := now s; partial := partial s; wfail := wfail s; wdelay := wdelay s |}.
+     tcount := tcount s; retry := retry s; decode := decode s; now := now s; partial := partial s; wfail := wfail s; wdelay := wdelay s; wpark := wpark s; wdl := wdl s |}.
 Definition set_handles (s : state) (h : nat) : state :=
   {| ph := ph s; queue := queue s; blocked := blocked s; handles := h; enabled := enabled s; txid := txid s;
-     tcount := tcount s; retry := retry s; decode := decode s; now := now s; partial := partial s; wfail := wfail s; wdelay := wdelay s |}.
+     tcount := tcount s; retry := retry s; decode := decode s; now := now s; partial := partial s; wfail := wfail s; wdelay := wdelay s; wpark := wpark s; wdl := wdl s |}.
 Definition set_enabled (s : state) (e : bool) : state :=
   {| ph := ph s; queue := queue s; blocked := blocked s; handles := handles s; enabled := e; txid := txid s;
-     tcount := tcount s; retry := retry s; decode := decode s; now := now s; partial := partial s; wfail := wfail s; wdelay := wdelay s |}.
+     tcount := tcount s; retry := retry s; decode := decode s; now := now s; partial := partial s; wfail := wfail s; wdelay := wdelay s; wpark := wpark s; wdl := wdl s |}.
 Definition set_txid (s : state) (v : N) : state :=
   {| ph := ph s; queue := queue s; blocked := blocked s; handles := handles s; enabled := enabled s; txid := v;
-     tcount := tcount s; retry := retry s; decode := decode s; now := now s; partial := partial s; wfail := wfail s; wdelay := wdelay s |}.
+     tcount := tcount s; retry := retry s; decode := decode s; now := now s; partial := partial s; wfail := wfail s; wdelay := wdelay s; wpark := wpark s; wdl := wdl s |}.
 Definition set_tc (s : state) (t : tcounter) : state :=
   {| ph := ph s; queue := queue s; blocked := blocked s; handles := handles s; enabled := enabled s; txid := txid s;
-     tcount := t; retry := retry s; decode := decode s; now := now s; partial := partial s; wfail := wfail s; wdelay := wdelay s |}.
+     tcount := t; retry := retry s; decode := decode s; now := now s; partial := partial s; wfail := wfail s; wdelay := wdelay s; wpark := wpark s; wdl := wdl s |}.
 Definition set_retry (s : state) (d : doubling) : state :=
   {| ph := ph s; queue := queue s; blocked := blocked s; handles := handles s; enabled := enabled s; txid := txid s;
-     tcount := tcount s; retry := d; decode := decode s; now := now s; partial := partial s; wfail := wfail s; wdelay := wdelay s |}.
+     tcount := tcount s; retry := d; decode := decode s; now := now s; partial := partial s; wfail := wfail s; wdelay := wdelay s; wpark := wpark s; wdl := wdl s |}.
 Definition set_decode (s : state) (l : N) : state :=
   {| ph := ph s; queue := queue s; blocked := blocked s; handles := handles s; enabled := enabled s; txid := txid s;
-     tcount := tcount s; retry := retry s; decode := l; now := now s; partial := partial s; wfail := wfail s; wdelay := wdelay s |}.
+     tcount := tcount s; retry := retry s; decode := l; now := now s; partial := partial s; wfail := wfail s; wdelay := wdelay s; wpark := wpark s; wdl := wdl s |}.
 Definition set_now (s : state) (t : N) : state :=
   {| ph := ph s; queue := queue s; blocked := blocked s; handles := handles s; enabled := enabled s; txid := txid s;
-     tcount := tcount s; retry := retry s; decode := decode s; now := t; partial := partial s; wfail := wfail s; wdelay := wdelay s |}.
+     tcount := tcount s; retry := retry s; decode := decode s; now := t; partial := partial s; wfail := wfail s; wdelay := wdelay s; wpark := wpark s; wdl := wdl s |}.
 Definition set_partial (s : state) (p : option (N * reply)) : state :=
   {| ph := ph s; queue := queue s; blocked := blocked s; handles := handles s; enabled := enabled s; txid := txid s;
-     tcount := tcount s; retry := retry s; decode := decode s; now := now s; partial := p; wfail := wfail s; wdelay := wdelay s |}.
+     tcount := tcount s; retry := retry s; decode := decode s; now := now s; partial := p; wfail := wfail s; wdelay := wdelay s; wpark := wpark s; wdl := wdl s |}.
 Definition set_wctl (s : state) (f : bool) (d : N) : state :=
   {| ph := ph s; queue := queue s; blocked := blocked s; handles := handles s; enabled := enabled s; txid := txid s;
-     tcount := tcount s; retry := retry s; decode := decode s; now := now s; partial := partial s; wfail := f; wdelay := d |}.
+     tcount := tcount s; retry := retry s; decode := decode s; now := now s; partial := partial s; wfail := f; wdelay := d; wpark := wpark s; wdl := wdl s |}.
+
+Definition set_wpark (s : state) (n : nat) : state :=
+  {| ph := ph s; queue := queue s; blocked := blocked s; handles := handles s; enabled := enabled s; txid := txid s;
+     tcount := tcount s; retry := retry s; decode := decode s; now := now s; partial := partial s; wfail := wfail s; wdelay := wdelay s;
+     wpark := n; wdl := wdl s |}.
+Definition set_wdl (s : state) (d : N) : state :=
+  {| ph := ph s; queue := queue s; blocked := blocked s; handles := handles s; enabled := enabled s; txid := txid s;
+     tcount := tcount s; retry := retry s; decode := decode s; now := now s; partial := partial s; wfail := wfail s; wdelay := wdelay s;
+     wpark := wpark s; wdl := d |}.
 
 Section Model.
 Variable cfg : config.
@@ -233,7 +248,14 @@ Definition finish (s : state) (r : request) (res : result) : state * list output
       end
   end.
 
-(* run_one_request up to the first await: tx id, format, write *)
+(* the whole frame goes out in the first poll of io.write *)
+Definition write_now (s : state) : bool := (wdelay s =? 0) && Nat.eqb (wpark s) 0.
+(* io.write returned Ok: `let deadline = Instant::now() + request.timeout` - the reply deadline counts from here *)
+Definition written (s : state) (r : request) (tx : N) : state * list output :=
+  (set_ph s (PInFlight r tx (now s + rq_timeout r)), [OWire tx (rq_id r)]).
+
+(* run_one_request up to the first await: tx id, format, write.  A write that does not finish at once is bounded by
+   timeout(request.timeout, ..) counted from now (`wdl`); a slow transport is done at now + wdelay (0: no delay) *)
 Definition transmit (s : state) (r : request) : state * list output :=
   let '(v', tx) := txid_next (txid s) in
   let s := set_txid s v' in
@@ -243,10 +265,10 @@ Definition transmit (s : state) (r : request) : state * list output :=
   | KRead =>
       if wfail s then
         let '(s', o) := finish (set_wctl s false 0) r (RErr ReIo) in (s', stamp :: OWireFail tx (rq_id r) :: o)
-      else if wdelay s =? 0 then
+      else if write_now s then
         (set_ph s (PInFlight r tx (now s + rq_timeout r)), [stamp; OWire tx (rq_id r)])
       else
-        (set_wctl (set_ph s (PWriting r tx (now s + wdelay s))) false 0, [stamp])
+        (set_wdl (set_wctl (set_ph s (PWriting r tx (if wdelay s =? 0 then 0 else now s + wdelay s))) false 0) (now s + rq_timeout r), [stamp])
   end.
 
 (* one command taken from the queue, by the phase that took it *)
@@ -307,18 +329,6 @@ Definition step (s : state) (e : event) : state * list output :=
   | EvTick dt => (set_now s (now s + dt), [])
   | EvFailWrite => (set_wctl s true (wdelay s), [])
   | EvWriteDelay dt => (set_wctl s (wfail s) dt, [])
-  | EvSubmit c st =>
-      if Nat.eqb (handles s) 0 then (s, [])              (* no handle left: nobody can send *)
-      else match ph s with
-      | PDone =>            (* receiver dropped: the send fails, the command is dropped *)
-          (s, drop_queue [c])
-      | _ =>
-          if is_nil (blocked s) && Nat.ltb (length (queue s)) (cfg_cap cfg) then (set_chan s (queue s ++ [c]) (blocked s), [])
-          else match st with
-               | SFfi => (s, drop_queue [c])             (* try_send: Full -> the command is dropped *)
-               | _ => (set_chan s (queue s) (blocked s ++ [c]), [])
-               end
-      end
   | EvDropHandle => (set_handles s (pred (handles s)), [])
   | EvRecv =>
       if listens (ph s) then
@@ -358,12 +368,39 @@ Definition step (s : state) (e : event) : state * list output :=
   | EvTimer =>
       match ph s with
       | PWriting r tx u =>
-          if fire u <=? now s then (set_ph s (PInFlight r tx (now s + rq_timeout r)), [OWire tx (rq_id r)]) else (s, [])
+          (* tokio::time::timeout polls the write first: a write that can finish does, even at / after the bound *)
+          if Nat.eqb (wpark s) 0 && (fire u <=? now s) then written s r tx
+          else if fire (wdl s) <=? now s then finish s r (RErr write_timeout_error)
+          else (s, [])
       | PInFlight r _ d => if fire d <=? now s then finish s r (RErr deadline_error) else (s, [])
       | PWaiting u => if fire u <=? now s then loop_top s else (s, [])
       | _ => (s, [])
       end
   | EvAbort => match ph s with PDone => (s, []) | _ => crash s end
+  | EvWritePark => (set_wpark s (S (wpark s)), [])
+  | EvWritePartial _ => (s, [])
+  | EvWriteRelease =>
+      match wpark s with
+      | O => (s, [])
+      | S n =>
+          let s1 := set_wpark s n in
+          match ph s1 with
+          | PWriting r tx u => if Nat.eqb n 0 && (fire u <=? now s1) then written s1 r tx else (s1, [])   (* the parked write is polled again *)
+          | _ => (s1, [])
+          end
+      end
+  | EvSubmit c st =>
+      if Nat.eqb (handles s) 0 then (s, [])              (* no handle left: nobody can send *)
+      else match ph s with
+      | PDone =>            (* receiver dropped: the send fails, the command is dropped *)
+          (s, drop_queue [c])
+      | _ =>
+          if is_nil (blocked s) && Nat.ltb (length (queue s)) (cfg_cap cfg) then (set_chan s (queue s ++ [c]) (blocked s), [])
+          else match st with
+               | SFfi => (s, drop_queue [c])             (* try_send: Full -> the command is dropped *)
+               | _ => (set_chan s (queue s) (blocked s ++ [c]), [])
+               end
+      end
   end.
 
 Fixpoint run (s : state) (es : list event) : state * list output :=
@@ -395,7 +432,7 @@ Definition rtu_step (cfg : config) (s : state) (e : event) : state * list output
 Definition init (nhandles : nat) (max_timeouts : option N) (rmin rmax : N) : state :=
   {| ph := PWaitEnabled; queue := []; blocked := []; handles := nhandles; enabled := false; txid := 0;
      tcount := tc_new max_timeouts; retry := Retry.create rmin rmax; decode := 0; now := 0;
-     partial := None; wfail := false; wdelay := 0 |}.
+     partial := None; wfail := false; wdelay := 0; wpark := 0%nat; wdl := 0 |}.
 Definition init_outputs : list output := [OListen LDisabled].
 
 (* ---------- bookkeeping used by the theorems ---------- *)
